@@ -155,7 +155,16 @@ func makePlaintextRedirects(allConfigs []*SiteConfig) []*SiteConfig {
 			!cfg.TLS.NoRedirect &&
 			!hostHasOtherPort(allConfigs, i, httpPort) &&
 			(cfg.Addr.Port == httpsPort || !hostHasOtherPort(allConfigs, i, httpsPort)) {
-			allConfigs = append(allConfigs, redirPlaintextHost(cfg))
+			target := cfg
+			if cfg.Addr.Port == "" {
+				// managed sites have been given the HTTPS port by now; a site that
+				// still has none (self-signed, or with its own certificate) will be
+				// served on the default port, and that is where to redirect to
+				withPort := *cfg
+				withPort.Addr.Port = Port
+				target = &withPort
+			}
+			allConfigs = append(allConfigs, redirPlaintextHost(target))
 		}
 	}
 	return allConfigs
